@@ -18,7 +18,12 @@ from ..codegen import (
     generate_name,
 )
 from ..utils import ast_to_str
-from .constants import STANDARD_TYPES
+from .constants import (
+    GRAPHQL_IMPORTS,
+    STANDARD_TYPES,
+    TYPE_MAP_IMPORTS,
+    TYPING_IMPORTS,
+)
 from .directives import generate_directive
 from .named_types import generate_named_type
 from .utils import get_optional_named_type
@@ -50,38 +55,11 @@ def generate_schema_module(
         body=cast(
             List[ast.stmt],
             [
+                generate_import_from(names=list(GRAPHQL_IMPORTS), from_="graphql"),
                 generate_import_from(
-                    names=[
-                        "DirectiveLocation",
-                        "GraphQLArgument",
-                        "GraphQLDirective",
-                        "GraphQLEnumType",
-                        "GraphQLEnumValue",
-                        "GraphQLField",
-                        "GraphQLInputField",
-                        "GraphQLInputObjectType",
-                        "GraphQLInterfaceType",
-                        "GraphQLList",
-                        "GraphQLNamedType",
-                        "GraphQLNonNull",
-                        "GraphQLObjectType",
-                        "GraphQLScalarType",
-                        "GraphQLSchema",
-                        "GraphQLUnionType",
-                        "GraphQLID",
-                        "GraphQLInt",
-                        "GraphQLFloat",
-                        "GraphQLString",
-                        "GraphQLBoolean",
-                        "Undefined",
-                    ],
-                    from_="graphql",
+                    names=list(TYPE_MAP_IMPORTS), from_="graphql.type.schema"
                 ),
-                generate_import_from(
-                    names=["TypeMap"],
-                    from_="graphql.type.schema",
-                ),
-                generate_import_from(names=["cast", "List"], from_="typing"),
+                generate_import_from(names=list(TYPING_IMPORTS), from_="typing"),
                 generate_ann_assign(
                     target=generate_name(type_map_name),
                     annotation=generate_name("TypeMap"),
